@@ -546,7 +546,7 @@ impl Check for C03 {
         }
     }
     fn rule(&self) -> String {
-        "ir*: type-directed random programs (all generator biases, three size classes); for every accepted program four independent IR checkers (irck) re-type-check Compilation.core, .mono, .lambda (Lift) and .anf against their environments: variables in scope with the binder's type, calls/constructors/projections/operators/branches agree with declared signatures, no TParam/TVar/TApp residue from Mono on, referenced functions exist once. illtyped: a well-typed generated program with ONE ill-typed statement (28 kinds: operators on wrong operand types, non-bool conditions, branch/element type mismatches, array length mismatch incl. through array_set, literal width mismatch, wrong argument type/arity to a generated function, unknown/mistyped struct field, variant arity, builtin misuse, call of a non-function, tuple index out of range) inserted at a random position of a random (possibly nested) block: must be rejected with an error diagnostic, not accepted and not crash. Non-trivial = (ir) program has a generic instantiation or closure; (illtyped) the injection site is nested at depth >= 2. Distinct by hash of the text.".into()
+        "ir*: type-directed random programs (all generator biases, three size classes); for every accepted program four independent IR checkers (irck) re-type-check Compilation.core, .mono, .lambda (Lift) and .anf against their environments: variables in scope with the binder's type, calls/constructors/projections/operators/branches agree with declared signatures, no TParam/TVar/TApp residue from Mono on, referenced functions exist once. illtyped: a well-typed generated program with ONE ill-typed statement (28 kinds: operators on wrong operand types, non-bool conditions, branch/element type mismatches, array length mismatch incl. through array_set, literal width mismatch, wrong argument type/arity to a generated function, unknown/mistyped struct field, variant arity, builtin misuse, call of a non-function, tuple index out of range) inserted at a random position of a random (possibly nested) block: must be rejected with an error diagnostic, not accepted and not crash. Non-trivial = (ir) program has a generic instantiation or closure; (illtyped) the injection site is nested at depth >= 2. Distinct by hash of the text. Beyond the fixed kinds the injected statement may be a systematic mismatch (a random type T of depth <= 2, a one-point mutation T' of it: other leaf, other arity, other array length, Ref/Vec/array/tuple swapped; a closed value of T' where T is required: annotated let, via a variable, closure argument, ref_set, if branches, array elements), one of 16 occurs-check shapes (the variable under every constructor position, incl. a function's result) or a pattern of one kind against a scrutinee of another.".into()
     }
     fn assumptions(&self) -> Vec<String> {
         vec![
